@@ -101,14 +101,73 @@ def format_of_call(fn, cs):
     return out
 
 
-def format_of_operand(fn, op):
-    """If the operand is the String result of a format!(..), its pieces; else None."""
+def _display_piece(fn, op):
+    """One `{}` piece for an operand that is shown with Display: the value shown is what
+    `.to_string()` / `.clone()` / `&` were applied to."""
+    ty = ""
+    org = fn.origins_of_operand(op)
+    src = op
+    if op["k"] in ("copy", "move"):
+        ty = fn.local_ty(op["place"]["local"])["s"]
+        # `&ticket.to_string()`: show the ticket, as format!("{}", ticket) does
+        cur = op
+        for _ in range(6):
+            if cur["k"] not in ("copy", "move") or cur["place"]["proj"] and any(e["k"] != "deref" for e in cur["place"]["proj"]):
+                break
+            df = fn.defs.get(cur["place"]["local"], ())
+            if len(df) != 1:
+                break
+            kind, bb, idx, place, payload = df[0]
+            if kind == "assign" and payload["k"] == "ref" and not payload["place"]["proj"]:
+                cur = {"k": "copy", "place": payload["place"]}
+                continue
+            if kind == "assign" and payload["k"] == "use":
+                cur = payload["op"]
+                continue
+            if kind == "call" and payload.name in ("to_string", "human_readable") and payload.args:
+                src = payload.args[0]
+                if src["k"] in ("copy", "move"):
+                    ty = fn.local_ty(src["place"]["local"])["s"]
+                break
+            break
+    return ("arg", src, "new_display", ty)
+
+
+def format_of_operand(fn, op, depth=0):
+    """If the operand is a String built by format!(..) or by `+` concatenation
+    (`a.clone() + "/" + &b.to_string()`), its pieces; else None."""
     org = fn.origins_of_operand(op)
     if len(org) != 1:
         return None
     o = next(iter(org))
     if o[0][0] == "call" and o[0][3] == "std::fmt::format" and len(o) == 1:
         return format_of_call(fn, fn.call_at[o[0][2]])
+    if o[0][0] == "call" and o[0][3] == "std::ops::Add::add" and len(o) == 1 and depth < 8:
+        c = fn.call_at[o[0][2]]
+        if c.self_ty and "String" in c.self_ty and len(c.args) == 2:
+            out = []
+            for a in c.args:
+                b = _const_bytes_of(fn, a)
+                if b is not None:
+                    out.append(("lit", b))
+                    continue
+                # a named variable is a piece of its own (`path.clone() + ".tmp"` is a neighbour
+                # of `path`, whatever `path` was built from)
+                v = fn.vars_of_operand(a)
+                named = len(v) == 1 and next(iter(v))[0][0] == "var"
+                sub = None if named else format_of_operand(fn, a, depth + 1)
+                if sub is not None:
+                    out += sub
+                else:
+                    out.append(_display_piece(fn, a))
+            # adjacent literals merge (format! has one literal between two arguments)
+            merged = []
+            for p in out:
+                if p[0] == "lit" and merged and merged[-1][0] == "lit":
+                    merged[-1] = ("lit", merged[-1][1] + p[1])
+                else:
+                    merged.append(p)
+            return merged
     return None
 
 
